@@ -13,6 +13,7 @@ import (
 	"github.com/google/go-containerregistry/pkg/name"
 	conregv1 "github.com/google/go-containerregistry/pkg/v1"
 	metav1 "k8s.io/apimachinery/pkg/apis/meta/v1"
+	"k8s.io/apimachinery/pkg/apis/meta/v1/unstructured"
 	"k8s.io/apimachinery/pkg/runtime"
 	"k8s.io/apimachinery/pkg/runtime/schema"
 	"k8s.io/apimachinery/pkg/types"
@@ -456,6 +457,41 @@ func runResolverCase(c *kit.Ctx, i int) {
 		if err := user.Get(ctx, types.NamespacedName{Name: "lock"}, cur); err != nil {
 			c.Inconclusive("cannot re-read lock: " + err.Error())
 			return
+		}
+		// sometimes a package the resolver has just created never registers (the user deletes it
+		// again, or its revision never gets to the lock) and meanwhile the parents' constraints on
+		// it are edited: the next reconcile of the same long-lived resolver picks by the NEW
+		// constraints
+		if step < 3 && r.IntN(3) == 0 {
+			edited := false
+			for _, p := range changed {
+				inLock := false
+				for k := range cur.Packages {
+					inLock = inLock || cur.Packages[k].Source == p.src
+				}
+				if inLock {
+					continue
+				}
+				po := &unstructured.Unstructured{Object: map[string]any{"apiVersion": pkgGroup + "/v1", "kind": p.typ, "metadata": map[string]any{"name": objName(p.src)}}}
+				_ = user.Delete(ctx, po)
+				for k := range cur.Packages {
+					for d := range cur.Packages[k].Dependencies {
+						if cur.Packages[k].Dependencies[d].Package == p.src {
+							cons, _ := genConstraint(r, rc.tags[p.src])
+							cur.Packages[k].Dependencies[d].Constraints = cons
+							edited = true
+						}
+					}
+				}
+			}
+			if edited {
+				if err := user.Update(ctx, cur); err != nil {
+					c.Inconclusive("cannot update lock: " + err.Error())
+					return
+				}
+				c.Count("res_history_steps_unregistered_and_constraint_edited", 1)
+				continue
+			}
 		}
 		for _, p := range changed {
 			found := false
